@@ -598,6 +598,9 @@ impl FunctionCompiler<'_> {
             } => {
                 let continue_block = self.continues[&label];
 
+                // leaving the blocks between here and the loop: their defers have to run
+                self.compile_defers_up_to(label);
+
                 self.builder.ins().jump(continue_block, &[]);
             }
             hir::Stmt::Continue { label: None, .. } => unreachable!(),
@@ -620,6 +623,20 @@ impl FunctionCompiler<'_> {
     fn break_to_label(&mut self, value: Option<Value>, label: hir::ScopeId) {
         let exit_block = self.exits[&label];
 
+        self.compile_defers_up_to(label);
+
+        if let Some(value) = value {
+            self.builder
+                .ins()
+                .jump(exit_block, &[BlockArg::Value(value)]);
+        } else {
+            self.builder.ins().jump(exit_block, &[]);
+        };
+    }
+
+    /// Compiles the defers of every block between the current position and the scope `label`
+    /// (exclusive), innermost first.
+    fn compile_defers_up_to(&mut self, label: hir::ScopeId) {
         // run all the defers from here, backwards to the one we are breaking out of
 
         let mut used_frames = Vec::new();
@@ -646,14 +663,6 @@ impl FunctionCompiler<'_> {
         }
 
         self.defer_stack.extend(used_frames.into_iter().rev());
-
-        if let Some(value) = value {
-            self.builder
-                .ins()
-                .jump(exit_block, &[BlockArg::Value(value)]);
-        } else {
-            self.builder.ins().jump(exit_block, &[]);
-        };
     }
 
     fn store_default_in_memory(&mut self, expected_ty: Intern<Ty>, memory: MemoryLoc) {
@@ -1581,10 +1590,17 @@ impl FunctionCompiler<'_> {
                 if let Some(ty) = ty.into_real_type() {
                     self.builder.append_block_param(exit_block, ty);
                 }
-                if let Some(scope_id) = self.world_bodies[self.loc.file()].block_to_scope_id(expr) {
+                let loop_scope_id = self.world_bodies[self.loc.file()].block_to_scope_id(expr);
+                if let Some(scope_id) = loop_scope_id {
                     self.continues.insert(scope_id, header_block);
                     self.exits.insert(scope_id, exit_block);
                 }
+                // a frame of its own (with no defers) marks where `break` / `continue` to this loop
+                // stop unwinding; without it they would also run the defers of the enclosing blocks
+                self.defer_stack.push(DeferFrame {
+                    id: loop_scope_id,
+                    defers: Vec::new(),
+                });
 
                 self.builder.ins().jump(header_block, &[]);
                 self.builder.switch_to_block(header_block);
@@ -1604,6 +1620,8 @@ impl FunctionCompiler<'_> {
                 self.builder.seal_block(body_block);
 
                 self.compile_expr(body);
+
+                self.defer_stack.pop().expect("we just pushed this");
 
                 self.builder.ins().jump(header_block, &[]);
 
